@@ -68,6 +68,8 @@ pub fn all_scenarios() -> Vec<&'static dyn Scenario> {
     v.push(&zero::ZERO);
     #[cfg(feature = "xen")]
     v.push(&xen::XEN);
+    #[cfg(feature = "xen")]
+    v.push(&xen::XEN_CONC);
     v
 }
 
@@ -217,7 +219,7 @@ pub fn checks() -> Vec<Check> {
     });
     v.push(Check {
         prop: "C17",
-        parts: vec![Part { name: "S-xen", xen: true, quick: 600_000, thorough: 30_000_000 }, Part { name: "S-mem", xen: false, quick: 600_000, thorough: 20_000_000 }],
+        parts: vec![Part { name: "S-xen", xen: true, quick: 600_000, thorough: 30_000_000 }, Part { name: "S-mem", xen: false, quick: 600_000, thorough: 20_000_000 }, Part { name: "S-xen/concurrent", xen: true, quick: 200_000, thorough: 10_000_000 }],
         rule: "runs are histories of up to 10 access operations (buffer / object / typed-ref / element-array / atomic / slice-to-slice / stream / descriptor accesses and pointer-guard inspections, offsets within a page and across page boundaries, element types of 1-32 bytes) on one Xen region - grant mapped on demand, grant mapped in advance, foreign, or plain unix - over an emulated gntdev/privcmd device, with now and then the next map ioctl or mmap made to fail; plus, in the standard build, the S-mem histories whose pointer-guard inspections (slice, typed reference, element array, last element; read and mutable guards) compare len() and as_ptr() with the accessor; distinct = distinct event-log hash; non-trivial = a device-backed region and more than one operation or an injected failure",
         assumptions: COMMON_ASSUMPTIONS.to_vec(),
         real: vec!["vm_memory::mmap::xen (MmapXen, MmapXenGrant, MmapXenForeign, MmapXenSlice), PtrGuard, volatile_memory accessors (compiled from /repo working tree with the xen feature)", "kernel mmap/munmap of the device memfd"],
